@@ -85,7 +85,8 @@ def generate(seed, idx, tier):
                            jumps=0.05)
   return {'system': 'ds', 'class': fam, 'x64': x64, 'mode': mode, 'D': D,
           'mesh': mesh, 'config': cfg, 'tree': tree, 'lr': ds_gen.gen_lr(rng),
-          'param_seed': rng.randrange(1000), 'ops': ops, 'oracles': ['graft']}
+          'param_seed': rng.randrange(1000), 'ops': ops,
+          'oracles': ['graft', 'roots']}
 
 
 def run(plan):
